@@ -21,8 +21,8 @@ LEVEL_NOTE = ("Model fidelity is checked, not proved. Layered correspondence: th
               "the evaluation frequencies, pump walk-off angle, k_eff, apodisation weights at the nodes; for `jsa` also the value of "
               "jsa_raw; for `counts_corr` the group indices). The singles phase-matching function (2-D integral) is a parameter of the "
               "theorems and is exercised only by the predicate search. Non-vanishing of A1..A4/denominators is a hypothesis.")
-OPS = {"swap", "pm_inverse", "jsa", "pm_integrand", "pm_coinc", "norms", "counts_corr"}
-TOL = {"pm_integrand": ("crel", 1e-11), "pm_coinc": ("csum", 1e-10), "jsa": ("rel", 1e-11), "norms": ("rel", 1e-11),
+OPS = {"swap", "pm_inverse", "jsa", "pm_integrand", "pm_coinc", "pm_coinc_gl", "norms", "counts_corr"}
+TOL = {"pm_integrand": ("crel", 1e-11), "pm_coinc": ("csum", 1e-10), "pm_coinc_gl": ("csum", 1e-10), "jsa": ("rel", 1e-11), "norms": ("rel", 1e-11),
        "counts_corr": ("rel", 1e-12)}
 DEFAULT_TOL = ("exact",)
 RULE = ("family pm/k: random general setups (11 crystals × 5 PM types, non-collinear signal up to 3° external with arbitrary azimuth, "
